@@ -22,7 +22,7 @@ from ..run import hx
 from ..vmodcheck import VmodCheck
 
 TRUST = ["t", "u", "u2t", "t2u", "capi"]
-GRANT = ["granted", "not", "cleared", "cleared_after_compile", "other_spelling", "other_module"]
+GRANT = ["granted", "granted_twice", "not", "cleared", "cleared_after_compile", "other_spelling", "other_module"]
 PLACE = ["top", "func", "clone", "typed", "include"]
 IMPORT = ["name", "path", "include", "none"]
 SPELL = ["vmod", "VMOD", "Vmod"]
@@ -125,10 +125,11 @@ class Builder:
         self.add("loaded %s" % hx(name), "loaded:" + name, "flag")
 
 
-def ctor_text(spell, mod):
-    # the module's real name with the case changed as `spell` says
+def ctor_text(spell, mod, form="arg"):
+    # the module's real name with the case changed as `spell` says; `form`: a constructor with an argument, or the
+    # default constructor `name()` (a separate early-return path of ComplexCTORExpression::parse)
     name = {"vmod": mod, "VMOD": mod.upper(), "Vmod": mod.capitalize()}[spell]
-    arg = '";"' if mod == "csv" else "1"
+    arg = "" if form == "noarg" else ('";"' if mod == "csv" else "1")
     return name, "XO = %s(%s);" % (name, arg)
 
 
@@ -140,10 +141,12 @@ class C16(VmodCheck):
             "granted / another module granted} x {module already imported by a trusted context or not} x {constructor "
             "at top level / in a function body / in a clone / after a typed declaration / in an included file} x "
             "{import by name / by path / through an included file / none} x {exact name, upper case, capitalised} x "
+            "{constructor with an argument / default constructor name()} x "
             "{vmod, csv} x {unban through the C API / the C++ class}; each case is a host history replayed on the "
             "library (C++ classes or C API) and on the Lean model; compared: every compile outcome (kind of refusal by "
             "message), module registration, trusted flag of clones, creation events of the verification module; the "
-            "property is also evaluated directly on the implementation's answers. distinct = history text.")
+            "property is also evaluated directly on the implementation's answers; every history ends with the host clearing "
+            "the permissions and a brand-new untrusted context attempting the constructor (must be refused). distinct = history text.")
     trusted_base = VmodCheck.trusted_base + ["harness/vmod (event log of the verification module)"]
     EXTRA_FINDINGS = []
 
@@ -157,8 +160,11 @@ class C16(VmodCheck):
         mods = ["vmod", "csv"]
         apis = ["api", "cpp"]
         quick = self.tier == "quick"
-        for trust, grant, preload, place, imp, spell, mod, api in itertools.product(
-                TRUST, GRANT, [False, True], PLACE, IMPORT, SPELL, mods, apis):
+        for trust, grant, preload, place, imp, spell, mod, api, form in itertools.product(
+                TRUST, GRANT, [False, True], PLACE, IMPORT, SPELL, mods, apis, ["arg", "noarg"]):
+            # the default constructor: every trust x grant x place x import, with the exact spelling through the C API
+            if form == "noarg" and (spell != "vmod" or api == "cpp" or mod == "csv"):
+                continue
             # reductions that lose no configuration class: csv and the C++ unban entry point only with the exact spelling
             if mod == "csv" and (spell != "vmod" or api == "cpp"):
                 continue
@@ -170,13 +176,15 @@ class C16(VmodCheck):
             cid = "p%d" % n
             b = Builder(cid, info, tmpdir)
             path = info["%s_path" % mod] if mod != "csv" else info["csv_path"]
-            name, ctext = ctor_text(spell, mod)
+            name, ctext = ctor_text(spell, mod, form)
             granted_now = set()
             if preload:
                 k0 = b.new("t")
                 b.compile(k0, "import %s;" % mod, "in." + mod)
-            if grant in ("granted", "cleared", "cleared_after_compile"):
+            if grant in ("granted", "granted_twice", "cleared", "cleared_after_compile"):
                 b.unban(mod, api); granted_now.add(mod)
+                if grant == "granted_twice":
+                    b.unban(mod, api)
             elif grant == "other_spelling":
                 b.unban(mod.upper(), api); granted_now.add(mod.upper())
             elif grant == "other_module":
@@ -227,6 +235,14 @@ class C16(VmodCheck):
                 b.clear(api)
             for x, kk in exes:
                 b.run(x, kk)
+            # afterwards (every history): the host clears the permissions; a brand-new untrusted context must be refused,
+            # whatever was granted, compiled or run before (no memory of an earlier grant)
+            if grant != "cleared_after_compile":
+                b.clear(api)
+            k9 = b.new("u")
+            x9 = b.compile(k9, ctext, "c." + name)
+            expect.append(("noobject", len(b.ops) - 1, None))
+            b.run(x9, k9)
             meta = {"trust": trust, "grant": grant, "preload": preload, "place": place, "import": imp, "spell": spell,
                     "mod": mod, "api": api, "kinds": b.kinds, "expect": expect}
             cases.append(Case(cid, "perm " + " ".join(b.files + b.words), "|".join(b.ops), meta))
